@@ -1018,6 +1018,31 @@ def _(E, c):
     return old
 
 
+@model('re:::from_bits_retain$', 're:::from_bits_truncate$', 're:>::from_bits_retain$')
+def _(E, c):
+    """bitflags!-generated flag sets: kept as their bit pattern"""
+    b = E.deref(c.args[0])
+    return StructV(c.dest_ty or 'bitflags', {0: b})
+
+
+@model('re:Flags>::bits$', 're:Flags::bits$')
+def _(E, c):
+    v = E.deref(c.args[0])
+    if isinstance(v, StructV) and 0 in v.fields:
+        return E.deref(v.fields[0])
+    return NotImplemented
+
+
+@model('re:Flags>::contains$', 're:Flags::contains$')
+def _(E, c):
+    a, b = E.deref(c.args[0]), E.deref(c.args[1])
+    if isinstance(a, StructV) and isinstance(b, StructV) and isinstance(E.deref(a.fields.get(0)), IntV) and isinstance(E.deref(b.fields.get(0)), IntV):
+        x, y = E.deref(a.fields[0]).v, E.deref(b.fields[0]).v
+        if not is_sym(x) and not is_sym(y):
+            return (x & y) == y
+    return NotImplemented
+
+
 @model('mem::take', 'take')
 def _(E, c):
     if len(c.args) != 1 or not isinstance(c.args[0], RefV):
